@@ -825,7 +825,8 @@ class Constant(Expression):
             self.value = index(value)
             self.fixed = False
         except TypeError:
-            self.value = float(value) * Expression.FIXED_BASE
+            # the float nearest to a decimal may lie just below it
+            self.value = round(float(value) * Expression.FIXED_BASE)
             self.fixed = True
         self.ebpf = ebpf
         self.signed = value < 0
